@@ -20,7 +20,8 @@ RULE = ("even N in 2..24 (thorough to 32), delta log-uniform [0.01,1], r0 [0.05,
         "Non-trivial = N >= 4. Distinct = canonical JSON."
         " Also: the FFT= argument with a plan object that owns its output buffer (screens equal the default path's and survive reuse of the plan)."
         " Also: L0 from 1e-3 to 1e4 screen widths, r0 1e-3 .. 100, whole-number parameters as Python / NumPy integers."
-        " Law scalar_types: the same parameter values as NumPy integers / float32 / Python ints give bit-identical screens; grid size as typed NumPy integers in the probe laws.")
+        " Law scalar_types: the same parameter values as NumPy integers / float32 / Python ints give bit-identical screens; grid size as typed NumPy integers in the probe laws."
+        " Law threads (Ctx.thread_agreement).")
 ASSUMPTIONS = ["the ensemble is over the draws of the injected Generator (independent hi/lo draws), as the statement says; the int-seed path (two identically seeded generators) is measured and reported separately",
                "spectral identities to 1e-10 relative (double precision FFT)"]
 
